@@ -4,7 +4,7 @@ from vlib import build
 
 SIZES = [1, 2, 3, 7, 8, 9, 15, 16, 24, 31, 32, 33, 63, 64, 65, 99, 100, 101, 127, 128, 255, 256, 257, 1000, 4096, 65535, 65536, 70000, 1 << 20]
 ALIGNS = [1, 2, 4, 8, 16, 32, 64, 128, 256, 4096]
-COMPS = list(range(1, 16))
+COMPS = list(range(1, 19))
 
 
 def gen_lines(rng, thorough):
@@ -63,12 +63,15 @@ def oracle(line, prev):
             return 'request for %d x %d bytes reached the wrapped allocator as %d x %d' % (c, s, l[2], l[3])
         if l[4] < a:
             return 'alignment %d was lowered to %d' % (a, l[4])
+        minal = {1: 32, 8: 16, 9: 64, 11: 32, 12: 16, 13: 128, 15: 32, 16: 64, 17: 128}.get(int(t[0]))
+        if minal and l[4] < minal:
+            return 'the aligned_allocator (minimum alignment %d) passed alignment %d on' % (minal, l[4])
         if prev is not None:
             pl = [parse(x) for x in prev.split(' =', 1)[1].split() if x[0] == 'L']
             if pl and (pl[0][0], pl[0][1][-1], pl[0][2], pl[0][3], pl[0][4]) != (l[0], l[1][-1], l[2], l[3], l[4]):
                 return 'release reached %s as %s(%d,%d,%d) but the allocation went to %s as %s(%d,%d,%d)' % (l[0], l[1], l[2], l[3], l[4], pl[0][0], pl[0][1], pl[0][2], pl[0][3], pl[0][4])
         comp = int(t[0])
-        want_t = comp in (2, 8, 9, 12, 13) or (comp == 10 and l[0] == 'L1') or (comp in (14, 15) and op[0] != 't')
+        want_t = comp in (2, 8, 9, 12, 13, 18) or (comp == 10 and l[0] == 'L1') or (comp in (14, 15) and op[0] != 't')
         if comp in (14, 15) and op[0] == 't' and trk:
             return 'the tracker was told of an operation that the wrapped allocator refused'
         if want_t and len(trk) != 1:
@@ -94,6 +97,8 @@ def oracle(line, prev):
         if len(leafs) % 2:
             return 'unpaired calls at the wrapped allocator'
         for a_, d_ in zip(leafs[0::2], leafs[1::2]):
+            if a_[1] in ('an', 'aa') and d_[1] in ('an', 'aa'):
+                return 'the memory allocated as %s(%d,%d,%d) for a smart pointer was never released (the next call at the wrapped allocator is another allocation)' % (a_[1], a_[2], a_[3], a_[4])
             if (a_[1], d_[1]) not in (('an', 'dn'), ('aa', 'da')) or a_[2:] != d_[2:]:
                 return 'smart pointer released as %s(%d,%d,%d) what was allocated as %s(%d,%d,%d)' % (d_[1], d_[2], d_[3], d_[4], a_[1], a_[2], a_[3], a_[4])
     return None
